@@ -161,8 +161,14 @@ Definition served_ok (c : case) (rs : list (N * N * list N)) : bool :=
   | _ => all2 (fun k r => let '(cls, ck, d) := r in if cls =? 0 then written (c_ops c ++ c_post c) k ck d else true)
               (c_keys c) rs
   end.
-Definition p_safe (c : case) (o : obs) : bool :=
-  served_ok c (o_reads o) && served_ok c (o_reads2 o) && served_ok c (o_reads3 o).
+(* (stage 1 only, as c03_no_foreign_data states: at a point that write order EXCLUDES -- the index
+   more than 10 entries ahead of the data -- the integrity check repairs only its 10-entry
+   window and swallows the error, the volume comes up writable with index entries that point
+   behind the end of the data file, and a LATER write of the same size lands where such an entry
+   points and is then served under the stale key: observed for seed 12345000 case 5, .dat[:64]
+   .idx[:224]; see audit_notes in checks/C03.json.  At admissible points stages 2 and 3 are
+   compared exactly by [p_full].) *)
+Definition p_safe (c : case) (o : obs) : bool := served_ok c (o_reads o).
 
 (* the full property at an admissible crash point *)
 Definition p_full (dirty : N -> bool) (c : case) (ct : cut) : bool :=
